@@ -45,6 +45,12 @@ mod syn {
 use syn::{Ident, TokenStream};
 
 verus! {
+// A-std: String is a well-behaved HashMap key (vstd has this axiom for the primitive types only)
+#[verifier::external_body]
+pub broadcast proof fn axiom_string_obeys_key_model()
+    ensures #[trigger] vstd::std_specs::hash::obeys_key_model::<String>()
+{ }
+
 // R-drain: `v.drain(..)` (full range, consumed by a for loop) -> gecs_drain_all(&mut v): the elements in order, v left empty
 #[verifier::external_body]
 pub fn gecs_drain_all<T>(v: &mut Vec<T>) -> (r: Vec<T>)
